@@ -11,9 +11,9 @@ OWN = ("dyn", "path", "point", "obj", "extra", "x0")
 
 TARGETS = ["x", "u", "vg", "vc", "z", "T", "t0"]
 FORMS = {
-    "x": ["const", "vec", "arrN", "arrN1", "expr"],
-    "u": ["const", "arrN", "arrN1", "np1dN", "np1dN1", "dmrowN1", "expr"],
-    "vg": ["const"],
+    "x": ["const", "vec", "arrN", "arrN1", "expr", "const_int", "const_np0d"],
+    "u": ["const", "arrN", "arrN1", "np1dN", "np1dN1", "dmrowN1", "expr", "const_int", "const_npscalar", "const_dm"],
+    "vg": ["const", "const_int", "const_np0d", "const_dm", "const_np1"],
     "vc": ["const", "arrN", "arrN1", "np1dN1", "expr"],
     "z": ["const", "expr"],
     "T": ["const"],
@@ -21,7 +21,7 @@ FORMS = {
 }
 DIMS = dict(
     target=["x", "u", "vg", "vc", "z", "T", "t0"],
-    form=["const", "vec", "arrN", "arrN1", "np1dN", "np1dN1", "dmrowN1", "expr"],
+    form=["const", "vec", "arrN", "arrN1", "np1dN", "np1dN1", "dmrowN1", "expr", "const_int", "const_np0d", "const_npscalar", "const_dm", "const_np1"],
     second=["none", "same_target_other", "T_after", "T_before", "u_expr"],
     method=["MS", "SS", "DC"],
     N=[2, 1, 3],
@@ -36,7 +36,9 @@ DIMS = dict(
 
 
 def value_for(target, form, d, which=0):
-    if form == "const":
+    if form == "const_int":
+        return 1 + which
+    if form.startswith("const"):
         return {"x": 0.8, "u": -0.3, "vg": 0.6, "vc": 0.45, "z": 0.7, "T": 3.1, "t0": -0.2}[target] + 0.25 * which
     if form == "vec":
         return [0.8 + 0.25 * which, 0.35]
@@ -193,8 +195,8 @@ def ref_guess(d):
         if spec is None:
             return res
         f, v = spec
-        if f == "const":
-            res[:] = v
+        if f.startswith("const"):
+            res[:] = float(v)
         elif f == "vec":
             res[:] = np.array(v, dtype=float).reshape(-1, 1)
         elif f == "expr":
